@@ -181,10 +181,15 @@ def streams(ctx):
                                 f"advertised {label} target {t!r} for {cur!r} is not a cached, strictly newer, maximal version of {vs}"))})
             # completeness: every due line is offered (possibly merged into an earlier label with the same target)
             kc0 = known_class(c, cur)
+            pre0 = prefix_of(cur)
+            targets = []
+            for a in acts:
+                nt_ = vlib.unhx(a.split("=>")[0].strip().split("|")[5])
+                targets.append(nt_[len(pre0):] if nt_.startswith(pre0) else nt_)
             for label in ("patch", "minor", "major"):
-                der.append({"req": vlib.line("bump.due", label, cur, *c["vs"]), "index": i, "history": [c["req"]],
-                            "check": (lambda out, label=label, offered=tuple(labels_offered), cur=cur, kc0=kc0: None if out == "F" or offered else (("known", kc0) if kc0 else ("violation",
-                                f"a newer {label} version exists for {cur!r} but no action was offered")))})
+                der.append({"req": vlib.line("bump.covered", label, cur, str(len(targets)), *targets, *c["vs"]), "index": i, "history": [c["req"]],
+                            "check": (lambda out, label=label, targets=tuple(targets), cur=cur, kc0=kc0: None if out == "T" else (("known", kc0) if kc0 else ("violation",
+                                f"a newer {label} version exists for {cur!r} but none of the offered targets {list(targets)} is the highest of that line")))})
         return der
     # ---- (c) locate_version_in_token vs its model: tokens with the version at the end / in the middle / twice / absent, multi-byte
     # characters around it, offsets out of range or inside a character, hash-pinned packages, the empty version
